@@ -204,14 +204,45 @@ def check_history(paths, sym, nops, timer):
                     m = s.model()
                     model = {"trace": [list(map(str, ev)) for ev in trace],
                              "contents": [m.eval(c, model_completion=True).as_string() for c in sym["c"]], "key": kidx}
+                    ops = ops_from_trace(trace, sym, m) if tag in NATIVE_TAGS else None
                     s.pop()
-                    return {"message": msg, "tags": [tag], "model": model}, nq
+                    return {"message": msg, "tags": [tag], "model": model, "ops": ops}, nq
                 if r != z3.unsat:
                     s.pop()
                     return {"message": "solver %s" % r, "tags": ["solver"], "model": {}, "inconclusive": True}, nq
                 s.pop()
         # notifications: every publish that changed something / every remove notified both sinks with the key (C10 completeness at the store)
     return None, nq
+
+
+KNOWN_TYPES = ["json", "xml", "yaml", "html", "toml", "properties", "text"]
+
+
+def ops_from_trace(trace, sym, m):
+    """native operations (harness/hist_config.rs) for a history under a solver model. Type strings are arbitrary in the encoding;
+    the raft apply normalises them to the known config types, so distinct model strings are mapped to distinct known types"""
+    tmap = {}
+    ops = []
+    for ev in trace:
+        k = KEYS[ev[1]]
+        kk = [k["data_id"], k["group"], k["tenant"]]
+        if ev[0] == "remove":
+            ops.append({"op": "remove", "key": kk})
+            continue
+        _p, _k, i, has_t, has_d, has_tid = ev
+        ty = None
+        if has_t:
+            tv = m.eval(sym["t"][i], model_completion=True).as_string()
+            if tv not in tmap:
+                tmap[tv] = KNOWN_TYPES[len(tmap) % len(KNOWN_TYPES)]
+            ty = tmap[tv]
+        ops.append({"op": "publish", "key": kk, "content": m.eval(sym["c"][i], model_completion=True).as_string(), "type": ty,
+                    "desc": m.eval(sym["d"][i], model_completion=True).as_string() if has_d else None, "history_id": i + 1,
+                    "history_table_id": m.eval(sym["tid"][i], model_completion=True).as_long() % (1 << 62) if has_tid else None, "op_time": 100 + i})
+    return ops
+
+
+NATIVE_TAGS = {"stale-content", "md5-mismatch", "meta-stale", "meta-lost", "meta-invented", "served-after-remove", "listed-after-remove", "published-not-served", "stored-not-listed"}
 
 
 def check_sequence(paths, sym, nops, timer):
@@ -390,7 +421,21 @@ def run(tier, seed, only_c19=False):
         elif viol.get("inconclusive"):
             ob.update({"verdict": "inconclusive", "message": viol["message"]})
         else:
-            ob.update({"verdict": "violation", "message": viol["message"], "tags": viol["tags"], "counterexample": viol["model"]})
+            ob.update({"verdict": "violation", "message": viol["message"], "tags": viol["tags"], "counterexample": viol["model"], "_ops": viol.get("ops")})
+        # translator validation material: sampled discharged paths, one model each
+        if viol is None and not only_c19:
+            import random
+            rnd = random.Random(seed)
+            sv = z3.Solver()
+            hist = []
+            okp = [(pc, obs) for pc, obs, exc in paths if exc is None]
+            for pc, obs in rnd.sample(okp, min(10 if tier == "quick" else 40, len(okp))):
+                sv.push()
+                sv.add(*pc)
+                if sv.check() == z3.sat:
+                    hist.append({"ops": ops_from_trace(obs["trace"], sym, sv.model())})
+                sv.pop()
+            ob["_validate"] = hist
     except rsparse.Unsupported as e:
         ob.update({"verdict": "inconclusive", "message": "encoder met source it cannot encode: %s" % e})
     obligations.append(ob)
@@ -400,12 +445,33 @@ def run(tier, seed, only_c19=False):
         from . import c09filter
         obligations.append(c09filter.run(tier, seed))
     from lib import native
+    import os
+    from .common import native_histories
+    native_ok = not os.environ.get("VERIF_NO_NATIVE")
+    prop_id = "C19" if only_c19 else "C09"
     for ob in obligations:
+        ops = ob.pop("_ops", None)
         if ob.get("verdict") == "violation":
-            path = native.write_replay("C19" if only_c19 else "C09", "c09", "model", [], {"engine": "smt", "mode": "model-only", "obligation": ob["harness"],
-                                                                                        "message": ob["message"], "model": ob.get("counterexample")})
+            if ops and native_ok:
+                rr = native_histories(prop_id, "config", "violation", [{"ops": ops}], {"obligation": ob["harness"], "model": ob.get("counterexample")}, ob["message"])
+                ob["replay_path"] = rr["path"]
+                ob["replay"] = {"path": rr["path"], "outcome": rr["outcome"], "message": rr["message"]}
+                if rr["outcome"] != "reproduced":
+                    ob.update({"verdict": "inconclusive", "message": "engine-S counterexample (%s) did not reproduce on the real ConfigActor (%s %s)" % (ob["message"], rr["outcome"], rr["message"])})
+                else:
+                    ob["message"] = "%s [real ConfigActor: %s]" % (ob["message"], rr["message"][:300])
+                continue
+            path = native.write_replay(prop_id, "c09", "model", [], {"engine": "smt", "mode": "model-only", "obligation": ob["harness"],
+                                                                     "message": ob["message"], "model": ob.get("counterexample")})
             ob["replay_path"] = path
-            ob["replay"] = {"path": path, "outcome": "model-only", "message": "operation history for the config store; replayable with ConfigActor in a unit test"}
+            ob["replay"] = {"path": path, "outcome": "model-only", "message": "operation history for the config store (history ids / index internals are not observable through the actor's messages)"}
+    hist = [h for ob in obligations for h in ob.pop("_validate", [])]
+    if hist and native_ok:
+        val = native_histories(prop_id, "config", "validate", hist)
+        info["translator_validation"] = val
+        if val["outcome"] != "passed":
+            obligations.append({"engine": "smt", "harness": "s09_translator_validation", "verdict": "inconclusive", "queries": 0, "solver_s": 0,
+                                "message": "the real ConfigActor and the encoding disagree on a sampled history: %s" % val["message"]})
     info["wall_s"] = round(time.time() - t0, 1)
     return {"obligations": obligations, "info": info}
 
